@@ -82,6 +82,7 @@ func TestC33(t *testing.T) {
 				pick = sc.pick
 			}
 			origin := parseWR(live[pick].res[pluginName])
+			capacity, usage, _ := w.read(node, nil)
 			// the request: mostly keep-bind with no cpu change and any memory delta
 			var opts resourcetypes.RawParams
 			reqKind := ""
@@ -89,18 +90,24 @@ func TestC33(t *testing.T) {
 				opts, reqKind = sc.opts, "keep-samecpu"
 			} else if g.chance(0.8) {
 				mem := int64(0)
-				switch g.intn(4) {
+				switch g.intn(6) {
 				case 1:
 					mem = -int64(50 * (1 + g.intn(3)))
 				case 2, 3:
 					mem = int64(50 * (1 + g.intn(10)))
+				case 4, 5:
+					// boundary: grow to exactly (or one off) the free memory of the workload's NUMA node / of the node
+					free := capacity.Memory - usage.Memory
+					if origin.NUMANode != "" {
+						free = capacity.NUMAMemory[origin.NUMANode] - usage.NUMAMemory[origin.NUMANode]
+					}
+					mem = free + int64(g.intn(3)-1)
 				}
 				opts = resourcetypes.RawParams{"keep-cpu-bind": true, "cpu-request": 0.0, "cpu-limit": 0.0, "memory-request": mem, "memory-limit": mem}
 				reqKind = "keep-samecpu"
 			} else {
 				opts, reqKind = g.reallocOpts(false)
 			}
-			capacity, usage, _ := w.read(node, nil)
 			whole := true
 			for _, v := range capacity.CPUMap {
 				if v != base {
@@ -194,8 +201,11 @@ func TestC33(t *testing.T) {
 	emit("corpus", plain, &script{[]resourcetypes.RawParams{bind(2, 0)}, []int{2}, 1, keep(0)})
 	emit("corpus", numa2, &script{[]resourcetypes.RawParams{bind(1, 100)}, []int{1}, 0, keep(0)})                   // NUMA: another node can host it
 	emit("corpus", numa2, &script{[]resourcetypes.RawParams{bind(1, 100), bind(1, 100)}, []int{1, 1}, 1, keep(50)}) // NUMA, both nodes in use
-	emit("corpus", plain, &script{[]resourcetypes.RawParams{bind(1.5, 0)}, []int{1}, 0, keep(0)})                   // fractional
-	emit("corpus", plain, &script{[]resourcetypes.RawParams{bind(0.5, 0), bind(1.5, 0)}, []int{1, 1}, 1, keep(0)})  // fractional, shared core
+	// NUMA boundary: the workload grows to exactly the free memory of its NUMA node; the other node's cores are taken
+	emit("corpus", numa2, &script{[]resourcetypes.RawParams{bind(1, 100), bind(1, 100), bind(1, 100), bind(1, 100)}, []int{1, 1, 1, 1}, 0, keep(1800)})
+	emit("corpus", numa2, &script{[]resourcetypes.RawParams{bind(2, 2000), bind(2, 100)}, []int{1, 1}, 0, keep(0)})
+	emit("corpus", plain, &script{[]resourcetypes.RawParams{bind(1.5, 0)}, []int{1}, 0, keep(0)})                  // fractional
+	emit("corpus", plain, &script{[]resourcetypes.RawParams{bind(0.5, 0), bind(1.5, 0)}, []int{1, 1}, 1, keep(0)}) // fractional, shared core
 
 	n := r.N(150, 1500)
 	for i := 0; i < n; i++ {
